@@ -31,6 +31,7 @@ func init() {
 			{Name: "proto-field-swapped", File: "binary/proto/proto.go", Old: "		Namespace:  p.Namespace,\n		Name:       p.Name,", New: "		Namespace:  p.Name,\n		Name:       p.Namespace,", Rule: "D4-conversion", Site: "purlToProto"},
 			{Name: "proto-field-dropped", File: "binary/proto/proto.go", Old: "		InBaseImage: ld.InBaseImage,\n", New: "", Rule: "D4-conversion", Site: "layerDetailsToProto"},
 			{Name: "cdx-purl-other-package", File: "converter/converter.go", Old: "		if p := ToPURL(pkg); p != nil {\n			comp.PackageURL = p.String()", New: "		if p := ToPURL(r.Inventory.Packages[0]); p != nil {\n			comp.PackageURL = p.String()", Rule: "D4-conversion", Site: "ToCDX"},
+			{Name: "parsed-url-used-on-error", File: "extractor/filesystem/sbom/spdx/spdx.go", Old: "					pkg.Name = packageURL.Name\n					m.PURL = &packageURL\n", New: "					m.PURL = &packageURL\n				}\n				if pkg.Name == \"\" {\n					pkg.Name = packageURL.Name\n", Rule: "D1-parsed-url", Site: "spdx"},
 			{Name: "index-key", File: "packageindex/package_index.go", Old: "pkgMap[p.Type][p.Name] = append(pkgMap[p.Type][p.Name], pkg)", New: "pkgMap[p.Type][pkg.Name] = append(pkgMap[p.Type][pkg.Name], pkg)", Rule: "D4-index-key", Site: "New"},
 		},
 	})
@@ -40,6 +41,7 @@ var auditedC14 = map[string]auditEntry{}
 
 func runC14(p *Prog, r *Report) {
 	r.Rule("D1-type-table", "every emitted / declared purl type is accepted by validType")
+	r.Rule("D1-parsed-url", "the result of purl.FromString is used only when it returned no error")
 	r.Rule("D2-metadata", "Metadata asserted by ToPURL/Ecosystem == Metadata written by Extract")
 	r.Rule("D3-locations", "every allocated Package gets a non-empty Locations")
 	r.Rule("D4-conversion", "converters copy every field into the like-named field")
@@ -47,6 +49,7 @@ func runC14(p *Prog, r *Report) {
 	r.Rule("D6-bounds", "bounds discipline over purl, packageindex, converter, binary/proto")
 	r.Rule("D6-assert", "no unguarded single-value assertion in those packages")
 	c14Types(p, r)
+	c14ParsedOnlyOnSuccess(p, r)
 	c14Metadata(p, r)
 	c14Conversion(p, r)
 	c20Index(p, r)
@@ -649,4 +652,65 @@ func (p *Prog) compositeNameAt(fn *ssa.Function, pa pkgAlloc) string {
 		}
 	}
 	return exprName(pa.fields["Name"])
+}
+
+// c14ParsedOnlyOnSuccess: every use of the PackageURL returned by purl.FromString is dominated by
+// err == nil (on failure FromString returns the zero URL, whose type the parser itself rejects).
+func c14ParsedOnlyOnSuccess(p *Prog, r *Report) {
+	n := 0
+	for _, fn := range p.Funcs() {
+		forEachInstr(fn, func(_ *ssa.BasicBlock, _ int, in ssa.Instruction) {
+			call, ok := in.(*ssa.Call)
+			if !ok || !refOf(call.Common()).is(fp("purl"), "", "FromString") {
+				return
+			}
+			n++
+			fa := newFA(p, r, fn)
+			isErr := func(v ssa.Value) bool {
+				ex, ok := v.(*ssa.Extract)
+				return ok && ex.Tuple == ssa.Value(call) && ex.Index == 1
+			}
+			_, okEdges := guardEdges(fn, condNonNil(isErr))
+			site := fa.key + ":purl.FromString"
+			if len(okEdges) == 0 {
+				r.Fail("D1-parsed-url", site, p.Pos(call.Pos()), "the error of purl.FromString is not tested before its result is used")
+				return
+			}
+			var users []ssa.Instruction
+			for _, ref := range *call.Referrers() {
+				ex, ok := ref.(*ssa.Extract)
+				if !ok || ex.Index != 0 {
+					continue
+				}
+				for _, u := range *ex.Referrers() {
+					if st, ok := u.(*ssa.Store); ok {
+						if al, ok := st.Addr.(*ssa.Alloc); ok && st.Val == ssa.Value(ex) {
+							for _, u2 := range *al.Referrers() {
+								if u2 != u {
+									if _, dbg := u2.(*ssa.DebugRef); !dbg {
+										users = append(users, u2)
+									}
+								}
+							}
+							continue
+						}
+					}
+					if _, dbg := u.(*ssa.DebugRef); !dbg {
+						users = append(users, u)
+					}
+				}
+			}
+			bad := 0
+			for _, u := range users {
+				if !onlyVia(fn, u.Block(), okEdges) {
+					bad++
+					r.Fail("D1-parsed-url", site, p.Pos(u.Pos()), "the PackageURL returned by purl.FromString is used on a path where its error was not found nil: a package then carries the zero URL (type \"\"), which the library's own parser rejects")
+				}
+			}
+			if bad == 0 {
+				r.OK("D1-parsed-url", site, p.Pos(call.Pos()), fmt.Sprintf("%d uses, all under err == nil", len(users)))
+			}
+		})
+	}
+	r.Instances("D1-parsed-url", "calls of purl.FromString", n, 2)
 }
